@@ -404,6 +404,10 @@ class Scratch:
     def close(self):
         os.chdir(self.cwd0)
         shutil.rmtree(self.base, ignore_errors=True)
+        try:                       # pool workers are terminated without atexit: leave no empty scratch directory
+            os.rmdir(os.path.dirname(self.base))
+        except OSError:
+            pass
 
 
 def _alt_of(op, k):
